@@ -61,8 +61,12 @@ class Loader(yaml.SafeLoader):
             A processed node representing the document.
         """
         node = cast(yaml.Node, super().get_single_node())
-        if node is not None:
-            node = self.__process_node(node, type(self).document_type)
+        if node is None:
+            # An empty document is a null value, and needs to be checked
+            # against the document type like any other value.
+            mark = self.get_mark()
+            node = yaml.ScalarNode('tag:yaml.org,2002:null', '', mark, mark)
+        node = self.__process_node(node, type(self).document_type)
         return node
 
     def get_node(self) -> yaml.Node:
